@@ -328,6 +328,8 @@ pub fn diff_snapshots(expected: &Snapshot, actual: &Snapshot, o: &CmpOpts) -> Ve
 pub const NAMES: &[&str] = &[
     "a", "ab", "a.b", "a b", "a-", "a!", "a+x", ".a", ".hid", "-x", " lead", "+p", "~t", "{z",
     "é", "éa", "é.b", "日本", "日", "ñ", "b", "c", "Z", "0", "a~", "aé",
+    // quote and backslash need escaping in the JSON of an index hunk
+    "q\"t", "b\\s",
 ];
 pub const CTRL_NAMES: &[&str] = &["n\nl", "t\tb", "\u{1}x"];
 
